@@ -15,20 +15,20 @@ import (
 
 // BitOp is one bit-level operation. K: "bit", "bits", "arr".
 type BitOp struct {
-	K    string `json:"k"`
-	N    int    `json:"n"`              // bit count
-	V    uint64 `json:"v,omitempty"`    // value for bit/bits (garbage above bit n allowed)
-	Seed uint64 `json:"seed,omitempty"` // array content
-	Slack int   `json:"slack,omitempty"` // extra bytes in the array passed to WriteArray
+	K     string `json:"k"`
+	N     int    `json:"n"`               // bit count
+	V     uint64 `json:"v,omitempty"`     // value for bit/bits (garbage above bit n allowed)
+	Seed  uint64 `json:"seed,omitempty"`  // array content
+	Slack int    `json:"slack,omitempty"` // extra bytes in the array passed to WriteArray
 }
 
 // C14Case is a writer program and a reader program over the same bit sequence.
 type C14Case struct {
-	WBuf   uint    `json:"wbuf"`
-	RBuf   uint    `json:"rbuf"`
-	Writes []BitOp `json:"writes"`
-	Reads  []BitOp `json:"reads"` // re-partition; whatever is left is read as one array
-	PostClose bool `json:"post_close"`
+	WBuf      uint    `json:"wbuf"`
+	RBuf      uint    `json:"rbuf"`
+	Writes    []BitOp `json:"writes"`
+	Reads     []BitOp `json:"reads"` // re-partition; whatever is left is read as one array
+	PostClose bool    `json:"post_close"`
 }
 
 func arrBytes(seed uint64, nbytes int) []byte {
